@@ -1,7 +1,7 @@
 package main
 import "testing"
 func TestLP(t *testing.T){
-	tab := newSymTab()
+	tab := newSymTab(); defaultTab = tab
 	x, y := linS(tab.get("x")), linS(tab.get("y"))
 	s := newState()
 	s.leq(x, linI(10)); s.leq(linI(3), x); s.leq(y, x.AddK(5)); s.leq(x.Scale(qi(2)), y)
@@ -39,4 +39,14 @@ func TestMinGE2(t *testing.T){
 	t.Log("cmp", v.Cmp(K), v.Sub(K).String(), K.String(), qi(0).Cmp(K))
 	a := Q{n:0,d:1}
 	t.Log(a.Cmp(K), a.Sub(K).String())
+}
+func TestBigAdd(t *testing.T){
+	tab := newSymTab(); tab.allNonneg = true; defaultTab = tab
+	x, d, L := linS(tab.get("x")), linS(tab.get("d")), linS(tab.get("L"))
+	s := newState()
+	s.le(L.Sub(linK(qPow2(46))))
+	s.leq(d, L)
+	s.le(x.Sub(linK(qPow2(63).Sub(qi(1)))))
+	st, v := s.max(d.Add(x)); t.Log(st, v.String())
+	if !s.maxLE(d.Add(x), qPow2(64).Sub(qi(1))) { t.Fatal("maxLE failed") }
 }
